@@ -361,9 +361,48 @@ func Tenant(w *load.World, c *core.Collector) {
 		return strings.Contains(k, "syncUserCollections") || strings.Contains(k, "RPCSetNodeKeyValue")
 	}
 	n := 0
+	// literals that are handed the user collections bucket by a helper ("readUserCollections(func(b
+	// Bucket) error {…})": the helper opens the transaction, gets the bucket and calls its argument
+	// with it): literal -> index of the bucket parameter
+	bucketParam := map[*ssa.Function]int{}
+	for _, h := range clusterFns(w) {
+		got := map[ssa.Value]bool{}
+		for _, b := range h.Blocks {
+			for _, in := range b.Instrs {
+				call, ok := in.(*ssa.Call)
+				if ok && call.Call.IsInvoke() && ssax.TypeName(call.Call.Value.Type()) == "diskstore.BucketManager" && call.Call.Method.Name() == "Get" && ssax.Prov(call.Call.Args[0])["global:USERCOLSBUCKETKEY"] {
+					if v := resultValue(call, 0); v != nil {
+						got[v] = true
+					}
+				}
+			}
+		}
+		if len(got) == 0 {
+			continue
+		}
+		for _, b := range h.Blocks {
+			for _, in := range b.Instrs {
+				call, ok := in.(*ssa.Call)
+				if !ok || call.Call.IsInvoke() || call.Call.StaticCallee() != nil {
+					continue
+				}
+				for j, a := range call.Call.Args {
+					if !got[a] {
+						continue
+					}
+					for _, lit := range funcValuesOf(w, call.Call.Value, 0) {
+						bucketParam[lit] = j
+					}
+				}
+			}
+		}
+	}
 	for _, f := range clusterFns(w) {
 		// buckets obtained as bm.Get(USERCOLSBUCKETKEY)
 		userBuckets := map[ssa.Value]bool{}
+		if j, ok := bucketParam[f]; ok && j < len(f.Params) {
+			userBuckets[f.Params[j]] = true
+		}
 		for _, b := range f.Blocks {
 			for _, in := range b.Instrs {
 				call, ok := in.(*ssa.Call)
